@@ -127,6 +127,11 @@ fam("list_set_neg", "list1", LIST, FOR + "x[(-1) - i] = i")
 fam("list_opidx_add", "list1", LIST, FOR + "x[i] += 3")
 fam("list_opidx_max", "list1", LIST, FOR + "x[i] max= 7")
 fam("list_opidx_user", "list1b", LIST + ["__g := \\a, b -> a * 2 + b"], FOR + "x[i] __g= i")
+# user-written consuming modifiers (README: the operator of an op-assign may take over its left operand): the
+# parameter is the only holder of the collection during the call
+fam("list_user_push", "list1b", LIST + ["__push := \\a, b -> (a append= b; a)"], FOR + "x __push= i")
+fam("list_user_setter", "list1b", LIST + ["__put := \\a, i -> (a[i] = i + 1; a)"], FOR + "x __put= i")
+fam("list_dot_modifier", "list1b", LIST, FOR + "x .= \\l -> (l append= i; l)")
 fam("list_while_set", "list1b", LIST + ["__i := 0"], "while (__i < @N) (x[__i] = 5; __i += 1)")
 # the loop itself takes an alias four times (and drops the previous one): one copy per alias is allowed
 fam("list_realias4", "list1b", LIST + ["__c := null"], FOR + "(if (i % @R == 0) __c = x; x[i] = i + 1)", dyn_holders=4)
